@@ -183,6 +183,14 @@ func checkSigCase(c SigCase, r *Recorder) error {
 	if err != nil && len(c.Keyring) > 0 {
 		return errf("HARNESS: keyring unreadable: %v", err)
 	}
+	if len(keyring) == 0 {
+		// "no keys" has two spellings in Go - a nil slice and an empty one: both are empty keyrings
+		if len(c.Raw)%2 == 0 {
+			keyring = nil
+		} else {
+			keyring = openpgp.EntityList{}
+		}
+	}
 	if c.Genuine != nil {
 		return checkClosedHandle(c, keyring)
 	}
@@ -396,7 +404,7 @@ func genSignedBase(t *rapid.T) SignedBase {
 
 var specC16 = Register(&Spec[SigCase]{
 	Prop: "C16", Name: "debsig",
-	Rule:  "fault enumeration over generated debsig-signed packages (C14 models with stored/gzip/zstd members, role in {origin, maint, archive}, RSA signer from a per-process pool, detached binary signature over debian-binary|control|data in '_gpg<role>'): the untampered package with the signer in the keyring (accept - and after the check the handle still delivers the signed payload, and a repeated check agrees; the same with another signed package of the same layout loaded before and after it and left open); EVERY single-byte XOR 0x01 inside the three signed members (reject); a decoy control.*/data.* member with a different extension (a stored tar carrying 'Package: evil', or a copy) and a same-name duplicate with changed content inserted at EVERY member position, each loaded 64 times (reject); a decoy named the GNU way - a '//' name table plus a member '/0' - at every position (must fail or expose the signed content); a role that is not present, an unrelated keyring, an empty keyring (reject); a second CheckDebsig on the same handle with an unrelated or empty keyring after a successful first one (the second must fail); EVERY single-byte XOR inside the signature member (must fail or still verify the unmodified content); per signed member one altered byte in a package loaded from a FILE that is closed before the check while its path (or the path told to Load) leads to the genuine package (reject); the signature member followed by junk, a NUL byte, a truncated or a damaged second signature, followed by the first k bytes of a second copy for EVERY k, with a well-formed user-ID or literal-data packet or an empty / one-byte / indeterminate-length signature packet in front of or behind it, and a second copy whose version, public-key-algorithm or hash-algorithm byte lost a bit (five masks) in front of or behind the good one (reject); the signature member replaced by its ASCII-armored form, alone (either outcome), with a foreign/empty keyring and with flipped bytes in each signed member (reject). Oracle: reject => Load or CheckDebsig fails on every repetition; always: if both succeed, the control data exposed equals the signed package's model and the signer is the signing entity. Non-trivial: every faulted case; distinct by (bytes, role, keyring).",
+	Rule:  "fault enumeration over generated debsig-signed packages (C14 models with stored/gzip/zstd members, role in {origin, maint, archive}, RSA signer from a per-process pool, detached binary signature over debian-binary|control|data in '_gpg<role>'): the untampered package with the signer in the keyring (accept - and after the check the handle still delivers the signed payload, and a repeated check agrees; the same with another signed package of the same layout loaded before and after it and left open); EVERY single-byte XOR 0x01 inside the three signed members (reject); a decoy control.*/data.* member with a different extension (a stored tar carrying 'Package: evil', or a copy) and a same-name duplicate with changed content inserted at EVERY member position, each loaded 64 times (reject); a decoy named the GNU way - a '//' name table plus a member '/0' - at every position (must fail or expose the signed content); a role that is not present, an unrelated keyring, an empty keyring - nil slice or empty slice - (reject); data and control swapped in the file with a signature made over the file-order concatenation (reject) or the genuine one (must fail or expose the signed content); a second CheckDebsig on the same handle with an unrelated or empty keyring after a successful first one (the second must fail); EVERY single-byte XOR inside the signature member (must fail or still verify the unmodified content); per signed member one altered byte in a package loaded from a FILE that is closed before the check while its path (or the path told to Load) leads to the genuine package (reject); the signature member followed by junk, a NUL byte, a truncated or a damaged second signature, followed by the first k bytes of a second copy for EVERY k, with a well-formed user-ID or literal-data packet or an empty / one-byte / indeterminate-length signature packet in front of or behind it, and a second copy whose version, public-key-algorithm or hash-algorithm byte lost a bit (five masks) in front of or behind the good one (reject); the signature member replaced by its ASCII-armored form, alone (either outcome), with a foreign/empty keyring and with flipped bytes in each signed member (reject). Oracle: reject => Load or CheckDebsig fails on every repetition; always: if both succeed, the control data exposed equals the signed package's model and the signer is the signing entity. Non-trivial: every faulted case; distinct by (bytes, role, keyring).",
 	Check: checkSigCase,
 })
 
@@ -488,6 +496,29 @@ func enumerateSigFaults(b SignedBase, yield func(SigCase) bool) bool {
 				expect, fault = "sigfault", fmt.Sprintf("sigflip:%s@%d", mem.Name, k)
 			}
 			if !yield(mk(mut, expect, fault, 1)) {
+				return false
+			}
+		}
+	}
+	// the signature is over debian-binary, control, data in THAT order, wherever the members stand
+	// in the archive: with control and data swapped in the file, a signature over the file-order
+	// concatenation is not a signature of the package (and the genuine one may still verify)
+	if len(members) == 4 {
+		swapped := []ArMember{members[0], members[2], members[1]}
+		var msg bytes.Buffer
+		for _, mem := range swapped {
+			msg.Write(mem.Data)
+		}
+		var sig bytes.Buffer
+		if err := openpgp.DetachSign(&sig, signer, &msg, pgpConfig()); err == nil {
+			sm := append(append([]ArMember{}, swapped...), ArMember{Name: members[3].Name, MTime: 1700000000, Mode: "100644", Data: sig.Bytes()})
+			if !yield(mk(renderAr(sm), "reject", "members-swapped+signature-over-file-order", 1)) {
+				return false
+			}
+			// the genuine signature with the members swapped in the file: either outcome, but what is
+			// exposed must be the signed content
+			gm := append(append([]ArMember{}, swapped...), members[3])
+			if !yield(mk(renderAr(gm), "sigfault", "members-swapped+genuine-signature", 1)) {
 				return false
 			}
 		}
